@@ -13,10 +13,18 @@ func (v *verifIDs) mk(next *int, n int, spare int) ([]HandlerFunc, []int) {
 		*next++
 		id := *next
 		ids = append(ids, id)
-		hs = append(hs, func(c *Context) { v.out = append(v.out, id) })
+		// a method value: every handler made here is the same code (and has the same function name)
+		hs = append(hs, (&verifIDH{v, id}).Handle)
 	}
 	return hs, ids
 }
+
+type verifIDH struct {
+	v  *verifIDs
+	id int
+}
+
+func (h *verifIDH) Handle(c *Context) { h.v.out = append(h.v.out, h.id) }
 
 func (v *verifIDs) of(hs HandlersChain) []int {
 	v.out = nil
@@ -57,6 +65,8 @@ func verifHarness_C12_groups() {
 	j := dig(3)     // middleware of sibling G3
 	k := dig(2)     // middleware of the controller group
 	slash := dig(3) // spelling of the prefixes: "/x", "x", "/x/"
+	u2 := dig(2)    // a second Use in G1, after its nested groups have returned
+	rootg := dig(3) // a top-level group whose prefix is the root: none, "", "/"
 
 	v := &verifIDs{}
 	next := 0
@@ -113,9 +123,28 @@ func verifHarness_C12_groups() {
 			add(r.GET("/p5", verifNop), "/"+g1+"/s/p5", in1, jids)
 		}, jh...)
 		checkRestored("/"+g1, len(in1), in1)
+		// Use after nested groups have come and gone still belongs to G1
+		u2h, u2ids := v.mk(&next, u2, 0)
+		r.Use(u2h...)
+		in2 := verifCat(in1, u2ids)
+		add(r.GET("/p9", verifNop), "/"+g1+"/p9", in2)
 	}, gh...)
 	checkRestored("", 0, nil)
 	add(r.GET("/p6", verifNop), "/p6")
+	if rootg > 0 {
+		// a group on the root prefix adds nothing to the paths, but is a group all the same
+		rh, rids := v.mk(&next, 1, 0)
+		r.Group([]string{"", "", "/"}[rootg], func() {
+			ruh, ruids := v.mk(&next, 1, 0)
+			r.Use(ruh...)
+			add(r.GET("/q1", verifNop), "/q1", rids, ruids)
+			r.Group("/n", func() {
+				add(r.GET("/q2", verifNop), "/n/q2", rids, ruids)
+			})
+			add(r.GET("/q3", verifNop), "/q3", rids, ruids)
+		}, rh...)
+		checkRestored("", 0, nil)
+	}
 	kh, kids := v.mk(&next, k, 0)
 	ctl := &verifCtl{v: v, next: &next}
 	ctl.reg = func(path string, rt *Route) { add(rt, "/ctl"+path, kids) }
@@ -123,6 +152,7 @@ func verifHarness_C12_groups() {
 	checkRestored("", 0, nil)
 	add(r.GET("/p7", verifNop), "/p7")
 
+	verifAssert(len(r.Handlers()) == 0, "middleware added inside a group never lands in the router's global chain")
 	verifAssert(residue, "when Group returns, the prefix and group middleware in effect are what they were before the call")
 	okPath, okMw := true, true
 	for _, x := range regs {
